@@ -64,3 +64,11 @@ Proof.
     apply (@B2SF_inj 53 1024). vm_compute. reflexivity.
   - intros E. apply (f_equal fst) in E. apply (f_equal (@B2SF 53 1024)) in E. vm_compute in E. discriminate.
 Qed.
+
+(* the complex plumbing as the source has it (and as StC transcribes it, known finding included): conversion() = norm(),
+   value(x) = V::new(x, 0.0), powi on the real factor (Gen/StorageSrc.v is regenerated from src/lib.rs) *)
+From Coq Require Import String.
+From UomV Require Import Gen.StorageSrc Spec.StorageTie.
+Theorem c20_complex_plumbing_is_what_the_model_transcribes :
+  rows_eqb (class_rows "Complex" src_storage) (class_rows "Complex" expected_storage) = true.
+Proof. vm_compute. reflexivity. Qed.
